@@ -191,6 +191,109 @@ def generate(api):
         return "\n".join([d1, d2, d3, d4])
     section('filter::convert_url / resolve_primitive_region', 'crates/usvg/src/parser/filter.rs', g_filter)
 
+    # ---- extension round 4: primitiveUnits scaling of the number attributes, and the cache skeletons of mask / filter
+    FCFG = dict(CFG, types=dict(CFG['types'], Size='(Q * Q)'),
+                paths=dict(CFG['paths'], **{'PositiveF32::ZERO': '0'}),
+                methods=dict(CFG['methods'], width='sz_w', height='sz_h', approx_zero_ulps='Qapprox_zero',
+                             is_sign_positive='Qsign_positive'),
+                calls=dict(CFG['calls'], **{'PositiveF32::new': 'positive_new'}),
+                casts={'f32': None})
+
+    def g_prim_params(src):
+        ds = []
+        # collect_children: the scale every number attribute is multiplied with
+        p, r, b = rs.find_fn(src, 'collect_children')
+        m = need(r"let\s+scale\s*=\s*if\s+units\s*==\s*Units::ObjectBoundingBox\s*\{\s*if\s+let\s+Some\(object_bbox\)\s*=\s*object_bbox\s*\{\s*"
+                 r"object_bbox\.size\(\)\s*\}\s*else\s*\{\s*return\s+Vec::new\(\);\s*\}\s*\}\s*else\s*\{\s*"
+                 r"Size::from_wh\(([\d.]+),\s*([\d.]+)\)\.unwrap\(\)\s*\};", b, "collect_children: scale = bbox size under objectBoundingBox, else (1, 1)")
+        em = rs.Emitter(dict(FCFG))
+        ds.append("Definition prim_scale (units : units_) (object_bbox : option qrect) : option (Q * Q) :=\n"
+                  "  if units_eqb units ObjectBoundingBox then match object_bbox with Some b => Some (rw b, rh b) | None => None end\n"
+                  "  else Some (%s, %s)." % (em.num(m.group(1)), em.num(m.group(2))))
+        need(r"let\s+filter_subregion\s*=\s*match\s+resolve_primitive_region\(\s*child,\s*tag_name,\s*units,\s*state,\s*object_bbox,\s*filter_region,?\s*\)\s*\{\s*"
+             r"Some\(v\)\s*=>\s*v,\s*None\s*=>\s*break,\s*\};", b, "collect_children: a primitive without a valid sub-region ends the list")
+        for fn_ in ('convert_drop_shadow', 'convert_gaussian_blur', 'convert_offset', 'convert_morphology', 'convert_displacement_map'):
+            need(r"EId::\w+\s*=>\s*%s\(child,\s*scale,\s*&primitives\)" % fn_, b, "collect_children: %s gets the scale" % fn_)
+        # stdDeviation
+        p, r, b = rs.find_fn(src, 'convert_std_dev_attr')
+        need(r"let\s+\(std_dev_x,\s*std_dev_y\)\s*=\s*match\s+\(n1,\s*n2,\s*n3\)\s*\{\s*\(Some\(n1\),\s*Some\(n2\),\s*None\)\s*=>\s*\(n1,\s*n2\),\s*"
+             r"\(Some\(n1\),\s*None,\s*None\)\s*=>\s*\(n1,\s*n1\),\s*_\s*=>\s*\(0\.0,\s*0\.0\),\s*\};", b, "convert_std_dev_attr: one / two numbers")
+        ds.append("Definition std_dev_pair (n1 n2 n3 : option Q) : Q * Q :=\n"
+                  "  match n1, n2, n3 with Some a, Some b, None => (a, b) | Some a, None, None => (a, a) | _, _, _ => (0, 0) end.")
+        m = need(r"(let\s+std_dev_x\s*=\s*\(std_dev_x\s+as\s+f32\)\s*\*.*?\(std_dev_x,\s*std_dev_y\))\s*\}\s*$", b, "convert_std_dev_attr: scaling and clamp")
+        ds.append(tr_block('std_dev_scaled', '(std_dev_x std_dev_y : Q) (scale : Q * Q)', 'Q * Q', "{ %s }" % m.group(1), FCFG))
+        need(r"convert_std_dev_attr\(fe,\s*scale,\s*\"0 0\"\)", rs.find_fn(src, 'convert_gaussian_blur')[2], "feGaussianBlur: stdDeviation through convert_std_dev_attr")
+        # feOffset / feDropShadow dx, dy
+        for fn_, nm, dflt in (('convert_offset', 'offset', r"0\.0"), ('convert_drop_shadow', 'shadow', r"2\.0")):
+            p, r, b = rs.find_fn(src, fn_)
+            mx = need(r"dx:\s*(fe\.attribute\(AId::Dx\)\.unwrap_or\(%s\)\s*\*\s*scale\.width\(\)),\s*dy:\s*(fe\.attribute\(AId::Dy\)\.unwrap_or\(%s\)\s*\*\s*scale\.height\(\))," % (dflt, dflt),
+                      b, "%s: dx / dy expressions" % fn_)
+            ds.append(tr_block(nm + '_dx', '(dx : option Q) (scale : Q * Q)', 'Q', "{ %s }" % mx.group(1).replace('fe.attribute(AId::Dx)', 'dx'), FCFG))
+            ds.append(tr_block(nm + '_dy', '(dy : option Q) (scale : Q * Q)', 'Q', "{ %s }" % mx.group(2).replace('fe.attribute(AId::Dy)', 'dy'), FCFG))
+        need(r"convert_std_dev_attr\(fe,\s*scale,\s*\"2 2\"\)", rs.find_fn(src, 'convert_drop_shadow')[2], "feDropShadow: stdDeviation through convert_std_dev_attr")
+        # feDisplacementMap scale
+        p, r, b = rs.find_fn(src, 'convert_displacement_map')
+        m1 = need(r"let\s+scale\s*=\s*(\(scale\.width\(\)\s*\+\s*scale\.height\(\)\)\s*/\s*2\.0);", b, "feDisplacementMap: mean of the two scales")
+        m2 = need(r"scale:\s*(fe\.attribute\(AId::Scale\)\.unwrap_or\(0\.0\)\s*\*\s*scale),", b, "feDisplacementMap: scale expression")
+        ds.append(tr_block('displace_scale', '(s : option Q) (scale : Q * Q)', 'Q',
+                           "{ let scale = %s; %s }" % (m1.group(1), m2.group(1).replace('fe.attribute(AId::Scale)', 's')), FCFG))
+        # feMorphology radius
+        p, r, b = rs.find_fn(src, 'convert_morphology')
+        need(r"let\s+mut\s+radius_x\s*=\s*PositiveF32::new\(scale\.width\(\)\)\.unwrap\(\);\s*let\s+mut\s+radius_y\s*=\s*PositiveF32::new\(scale\.height\(\)\)\.unwrap\(\);",
+             b, "feMorphology: default radius = the scale")
+        need(r"let\s+mut\s+rx\s*=\s*0\.0;\s*let\s+mut\s+ry\s*=\s*0\.0;\s*if\s+list\.len\(\)\s*==\s*2\s*\{\s*rx\s*=\s*list\[0\];\s*ry\s*=\s*list\[1\];\s*\}\s*"
+             r"else\s+if\s+list\.len\(\)\s*==\s*1\s*\{\s*rx\s*=\s*list\[0\];\s*ry\s*=\s*list\[0\];\s*\}", b, "feMorphology: one / two numbers")
+        ds.append("Definition morph_pair (l : list Q) : Q * Q := match l with [a; b] => (a, b) | [a] => (a, a) | _ => (0, 0) end.")
+        # since 4d36085: the radii are resolved (multiplied with the scale) BEFORE the zero fallbacks and the sign test
+        m = need(r"(rx\s*\*=\s*scale\.width\(\);\s*ry\s*\*=\s*scale\.height\(\);\s*if\s+rx\.approx_zero_ulps\(4\)\s*&&\s*ry\.approx_zero_ulps\(4\)\s*\{.*?)if\s+rx\.is_sign_positive\(\)", b,
+                 "feMorphology: scaling, then zero-radius replacement")
+        sl = re.sub(r"\b(r[xy])\s*\*=\s*([^;]+);", r"\1 = \1 * \2;", m.group(1))
+        ds.append(tr_block('morph_fix', '(rx ry : Q) (scale : Q * Q)', 'Q * Q', "{ %s (rx, ry) }" % sl, FCFG))
+        m = need(r"if\s+(rx\.is_sign_positive\(\)\s*&&\s*ry\.is_sign_positive\(\))\s*\{\s*if\s+let\s+\(Some\(rx\),\s*Some\(ry\)\)\s*=\s*"
+                 r"\(\s*PositiveF32::new\((rx)\),\s*PositiveF32::new\((ry)\),?\s*\)\s*\{\s*"
+                 r"radius_x\s*=\s*rx;\s*radius_y\s*=\s*ry;\s*\}\s*\}", b, "feMorphology: sign test and PositiveF32::new of the resolved radii")
+        ds.append(tr_block('morph_positive', '(rx ry : Q)', 'bool', "{ %s }" % m.group(1), FCFG))
+        ds.append(tr_block('morph_scaled', '(rx ry : Q)', 'option Q * option Q',
+                           "{ (PositiveF32::new(%s), PositiveF32::new(%s)) }" % (m.group(2), m.group(3)), FCFG))
+        return "\n".join(ds)
+    section('filter primitive parameters (primitiveUnits scaling)', 'crates/usvg/src/parser/filter.rs', g_prim_params)
+
+    def g_filter_cache(src):
+        # convert_url: skeleton of the conversion cache
+        p, r, b = rs.find_fn(src, 'convert_url')
+        need(r"if\s+cacheable\s*\{\s*if\s+let\s+Some\(filter\)\s*=\s*cache\.filters\.get\(node\.element_id\(\)\)\s*\{\s*return\s+Ok\(Some\(filter\.clone\(\)\)\);",
+             b, "filter cache lookup only when cacheable")
+        need(r"if\s+!cacheable\s*&&\s*cache\.filters\.contains_key\(id\.get\(\)\)\s*\{\s*id\s*=\s*cache\.gen_filter_id\(\);\s*\}", b,
+             "filter: generated id on second non-cacheable use")
+        need(r"if\s+primitives\.is_empty\(\)\s*\{\s*return\s+Err\(\(\)\);\s*\}", b, "filter without primitives is an error")
+        need(r"cache\.filters\.insert\(id_copy,\s*filter\.clone\(\)\);", b, "converted filter stored under its id")
+        i = [b.find(s) for s in ('cache.filters.get(', 'checked_bbox_transform(rect, object_bbox)', 'collect_children(', 'cache.filters.contains_key(', 'cache.filters.insert(')]
+        if not all(0 <= i[k] < i[k + 1] for k in range(4)):
+            raise api.Unsupported("convert_url: order lookup / region / primitives / id / insert changed")
+        return "Definition FILTER_CACHE_SKELETON : bool := true."
+    section('convert_url cache skeleton', 'crates/usvg/src/parser/filter.rs', g_filter_cache)
+
+    def g_mask_cache(src):
+        params, ret, body = rs.find_fn(src, 'convert')
+        need(r"if\s+cacheable\s*\{\s*if\s+let\s+Some\(mask\)\s*=\s*cache\.masks\.get\(node\.element_id\(\)\)\s*\{\s*return\s+Some\(mask\.clone\(\)\);", body,
+             "mask cache lookup only when cacheable")
+        need(r"\}\s*else\s*\{\s*mask_all\s*=\s*true;\s*\}", body, "mask: objectBoundingBox units without a box mask everything")
+        need(r"if\s+!cacheable\s*&&\s*cache\.masks\.contains_key\(id\.get\(\)\)\s*\{\s*id\s*=\s*cache\.gen_mask_id\(\);\s*\}", body,
+             "mask: generated id on second non-cacheable use")
+        need(r"if\s+mask_all\s*\{\s*let\s+mask\s*=\s*Arc::new\(Mask\s*\{\s*id,\s*rect,\s*kind:\s*MaskType::Luminance,\s*mask:\s*None,\s*root:\s*Group::empty\(\),\s*\}\);\s*"
+             r"cache\.masks\.insert\(id_copy,\s*mask\.clone\(\)\);\s*return\s+Some\(mask\);", body, "mask_all: empty mask without link, stored")
+        need(r"if\s+mask\.is_none\(\)\s*\{\s*return\s+None;\s*\}", body, "mask: invalid link invalidates the mask")
+        need(r"if\s+content_units\s*==\s*Units::ObjectBoundingBox\s*\{\s*let\s+object_bbox\s*=\s*match\s+object_bbox\s*\{\s*Some\(v\)\s*=>\s*v,\s*None\s*=>\s*\{[^{}]*return\s+None;\s*\}\s*\};",
+             body, "mask: objectBoundingBox content without a box is invalid")
+        need(r"if\s+!real_root\.has_children\(\)\s*\{\s*return\s+None;\s*\}", body, "mask without content is invalid")
+        need(r"let\s+mask\s*=\s*Arc::new\(mask\);\s*cache\.masks\.insert\(id_copy,\s*mask\.clone\(\)\);\s*Some\(mask\)", body, "converted mask stored under its id")
+        i = [body.find(s) for s in ('cache.masks.get(', 'checked_bbox_transform(rect, bbox)', 'cache.masks.contains_key(', 'if mask_all {',
+                                     'convert(link, state, object_bbox, cache)', 'Transform::from_bbox(object_bbox)', 'has_children()', 'Arc::new(mask)')]
+        if not all(0 <= i[k] < i[k + 1] for k in range(len(i) - 1)):
+            raise api.Unsupported("mask::convert: order lookup / region / id / mask_all / link / content changed")
+        return "Definition MASK_ID_CHOSEN_BEFORE_LINK : bool := true."
+    section('mask::convert cache skeleton', 'crates/usvg/src/parser/mask.rs', g_mask_cache)
+
     # tree/mod.rs Group::calculate_object_bbox: the box every clip / mask / filter of a group is resolved with
     def g_objbox(src):
         params, ret, body = rs.find_fn(src, 'calculate_object_bbox')
